@@ -397,3 +397,31 @@ Example c19_checker_tolerance_example :
   snap_diff e (o 4609551298431524565%N) = [6]%nat.
 Proof. exact deviation_tolerance_examples. Qed.
 Print Assumptions c19_checker_tolerance_example.
+
+(* ---- read-outs concurrent with the recording ------------------------------------------------ *)
+(* Update and every read-out hold the Stats mutex for their whole body, so an
+   execution with reader goroutines is an interleaving, operation by operation,
+   of the recording operations with the readers' read-outs. *)
+
+(* read-outs never change what is recorded *)
+Theorem c19_readouts_keep_recorded : forall st ops i k,
+  store_at (fst (mrun all_fixed (init_state st) ops)) i k =
+  store_at (fst (mrun all_fixed (init_state st) (strip_readouts ops))) i k.
+Proof. exact readouts_keep_recorded. Qed.
+Print Assumptions c19_readouts_keep_recorded.
+
+(* after any prefix, recording operations [ups] interleaved in any way with any
+   read-outs [ros] of reader threads: whatever is read or written afterwards is
+   what it would be had no reader run *)
+Theorem c19_concurrent_readers_irrelevant : forall st pre ups ros merged fin,
+  interleave2 ups ros merged ->
+  (forall o, In o ups -> is_readout o = false) -> (forall o, In o ros -> is_readout o = true) ->
+  final_out all_fixed st (pre ++ merged) fin = final_out all_fixed st (pre ++ ups) fin.
+Proof. exact concurrent_readers_irrelevant. Qed.
+Print Assumptions c19_concurrent_readers_irrelevant.
+
+Example c19_concurrent_readers_satisfiable :
+  interleave2 [OMeasure "a" 1 0; OMeasure "a" 2 0] [OString 0; OCollect 0; OValues 0]
+              [OString 0; OMeasure "a" 1 0; OCollect 0; OValues 0; OMeasure "a" 2 0].
+Proof. exact concurrent_readers_example. Qed.
+Print Assumptions c19_concurrent_readers_satisfiable.
